@@ -178,3 +178,27 @@ method("_handle_send_response",
        loops={"for#1": dict(index="i", inv=["True"])},
        notes="the Failure-typed result (FailedPayloadsError carrying responses and failed payloads in its args) is outside "
              "the subset; explored by producer_e2e")
+
+
+# ---- C19 / C01: dispatch of a batch once the partition lookups are in -------------------------------------------------
+contract("afkak.kafkacodec.create_message_set")(type('_', (), dict(
+    sig="(requests: List[SendRequest], codec: int = 0, magic: int = 0) -> List[Message]", trusted=True, props=[],
+    raises={"Exception": "True"},
+    assumes=["afkak.kafkacodec.create_message_set is represented by a trusted contract inside Producer._send_requests (the message "
+             "format it is asked for is a listed KNOWN-FINDING of C04; its output is checked by the producer_e2e scenario)"])))
+
+method("_send_requests", "(%s, parts_results: List[Tuple[bool, Any]], requests: List[SendRequest]) -> Optional[Ref_Deferred]" % SELF,
+       props=["C19", "C01"], raises={"Exception": "True"},
+       locals={"reqsByTopicPart": "Dict[TopicAndPartition, List[SendRequest]]",
+               "payloadsByTopicPart": "Dict[TopicAndPartition, ProduceRequest]",
+               "deferredsByTopicPart": "Dict[TopicAndPartition, List[Ref_Deferred]]",
+               "payloads": "List[ProduceRequest]", "part_or_failure": "int"},
+       loops={"for#1": dict(index="i", inv=["True"]), "for#2": dict(index="j", inv=["len(payloads) == j"])},
+       # implicit obligation of every fire: `req.deferred.errback(...)` only on a Deferred that has not fired (a send cancelled
+       # while its partition lookup was pending is skipped, "cancelling later only detaches the caller")
+       ensures={"nothing-while-stopping[C19]": "implies(old(self.stopping), n_events('ProduceRequest') == 0 and n_events('Fired') == 0)",
+                "one-request-per-dispatch[C09]": "n_events('ProduceRequest') <= 1"},
+       checkpoints={"call:addBoth#1": {
+           # exactly one produce request went out before the response handler is attached (failing a send in the loop above
+           # runs caller code, which may re-enter the producer: no two-state claim about the attempt counter here)
+           "one-request-then-handler[C09]": "n_events('ProduceRequest') == 1"}})
